@@ -112,7 +112,7 @@ type DTable struct {
 	AtomName func(e ast.Expr, sym string) string
 	// Inline: a function whose body is evaluated in place when it is called (a helper extracted from the
 	// analysed function is still part of it); nil inlines nothing.
-	Inline    func(f *types.Func) bool
+	Inline func(f *types.Func) bool
 	// Fix: the scenario's truth value for an atom (by its name); ok=false splits the atom both ways.
 	Fix       func(name string) (val bool, ok bool)
 	noInline  map[*types.Func]bool // callees that turned out to lie outside the fragment
